@@ -132,7 +132,7 @@ func main() {
 					frames = append(frames, frame{alts: append([]int(nil), runnable[1:]...)})
 					return runnable[0]
 				}
-				res := runOnce(*name, sc, cfg, 0, nil, pick, total%37 == 5)
+				res := runOnce(*name, sc, cfg, 0, nil, pick, true)
 				_ = depth
 				record(res)
 				// merge the alternatives discovered beyond the prefix into the stack
@@ -167,7 +167,7 @@ func main() {
 	} else {
 		for i := 0; i < *runs; i++ {
 			cfg := sc.Config(r, false)
-			record(runOnce(*name, sc, cfg, r.Int63(), nil, nil, total%37 == 5))
+			record(runOnce(*name, sc, cfg, r.Int63(), nil, nil, true))
 		}
 	}
 	enc.Encode(map[string]interface{}{"summary": true, "scenario": *name, "runs": total, "failing": failing, "steps": steps,
